@@ -151,7 +151,7 @@ def write_file(c, inst, relpath, data):
     return i
 
 
-def session_script(c, rng, h, buf, pos, t, first=None):
+def session_script(c, rng, h, buf, pos, t, first=None, snaps=True):
     """a random script of write / seek / flush calls on write handle h; returns the bytes a growable
     cursor holds afterwards (generator-side belief only)"""
     buf = bytearray(buf)
@@ -187,7 +187,7 @@ def session_script(c, rng, h, buf, pos, t, first=None):
             c.op("hseek", h, wh, off)
         else:
             c.op("hflush", h)
-            if rng.random() < 0.5:
+            if snaps and rng.random() < 0.5:
                 c.op("snap", t)
     return bytes(buf)
 
@@ -258,18 +258,19 @@ def arg_of(rng, p, hostile=None):
 
 
 def gen_history(c, g, rng, nops, typed=True, names=None, mix=None, snap_every=True, allow_big=True,
-                with_times=False, prepop_density=0.5, after_prepop=None, hostile=0.1):
+                with_times=False, prepop_density=0.5, after_prepop=None, hostile=0.1, reuse_tree=None):
     """append nops operations on the target to case c.  typed=True stays inside C01's domain."""
     names = names or rng.sample(NAMES, rng.randint(3, 4))
     HOSTILE[0] = hostile
-    tree = Tree()
+    tree = reuse_tree or Tree()
+    c.tree = tree
     t = g.target
-    if g.prepop or g.upper:
+    if reuse_tree is None and (g.prepop or g.upper):
         prepopulate(c, g, rng, names, tree, prepop_density)
     if after_prepop:
         after_prepop(c, g, tree)
     if snap_every:
-        c.op("snap", t)
+        c.first_snap = c.op("snap", t)
     kinds = mix or (["createdir"] * 3 + ["createfile"] * 4 + ["append"] * 2 + ["removefile"] * 2 + ["removedir"] * 2
                     + ["createdirall"] * 2 + ["removedirall"] + ["copyfile"] + ["movefile"] + ["copydir"] + ["movedir"]
                     + ["readdir", "metadata", "exists", "readtostring", "walkdir", "probe", "isfile", "isdir"])
@@ -313,7 +314,7 @@ def gen_history(c, g, rng, nops, typed=True, names=None, mix=None, snap_every=Tr
             i = c.op("createfile", vfx.ps(t, arg_of(rng, p)))
             ok = p[:-1] in tree.dirs and p not in tree.dirs and p != ()
             if ok:
-                data = session_script(c, rng, i, b"", 0, t, first=data)
+                data = session_script(c, rng, i, b"", 0, t, first=data, snaps=snap_every)
                 c.op("hdrop", i)
                 tree.files[p] = data
             else:
@@ -334,7 +335,7 @@ def gen_history(c, g, rng, nops, typed=True, names=None, mix=None, snap_every=Tr
                     tree.files[p] = tree.files[p] + data
                 else:
                     # seeks on append handles: in-memory backends only (O_APPEND differs by design)
-                    tree.files[p] = session_script(c, rng, i, tree.files[p], len(tree.files[p]), t, first=data)
+                    tree.files[p] = session_script(c, rng, i, tree.files[p], len(tree.files[p]), t, first=data, snaps=snap_every)
             c.op("hdrop", i)
         elif k == "removefile":
             p = rng.choice(files) if valid and files else rand_path(rng, names)
